@@ -1,6 +1,9 @@
 ---- MODULE MC_When ----
 EXTENDS When
 SigF1 == [fixed |-> 1, variadic |-> FALSE, method |-> FALSE, result |-> TRUE, name |-> "f1"]
+\* typed classes (same shape as f2 / v1; the replay world maps the value tokens to strings, pointers compared by pointee, ...)
+SigT2 == [fixed |-> 2, variadic |-> FALSE, method |-> FALSE, result |-> TRUE, name |-> "t2"]
+SigTV == [fixed |-> 1, variadic |-> TRUE, method |-> FALSE, result |-> TRUE, name |-> "tv"]
 SigF2 == [fixed |-> 2, variadic |-> FALSE, method |-> FALSE, result |-> TRUE, name |-> "f2"]
 SigV0 == [fixed |-> 0, variadic |-> TRUE, method |-> FALSE, result |-> TRUE, name |-> "v0"]
 SigV1 == [fixed |-> 1, variadic |-> TRUE, method |-> FALSE, result |-> TRUE, name |-> "v1"]
